@@ -538,9 +538,11 @@ def check_c15(prog, rep, tier, cfg):
     rep.check(not muts, R, "cursor-code-calls-no-mutator", "cursor code calls token mutators: %s" % [(short(a), short(b)) for a, b in muts])
     cursor_independence(prog, rep, "C15.d")
     cursor_measures_what_is_emitted(prog, rep, "C15.e")
+    counters_measured_only_for_formatted_tokens(prog, rep, "C15.e")
     cursor_text_is_cut_byte_exactly(prog, rep, "C15.f")
     cursor_offsets_reach_the_core_unmodified(prog, rep, "C15.g")
     cursors_in_changed_text_are_snapped(prog, rep, "C15.h")
+    measurer_consults_what_decides_the_emission(prog, rep, "C15.i")
 
 
 CURSOR_COLLECTION_OPS = {
@@ -635,6 +637,66 @@ def cursor_independence(prog, rep, R):
     rep.ok(R, {"operations": sorted((x or "?").split("::")[-1] for x in seen)})
 
 
+OBSERVATIONS = ("is_ignored", "get_leading_whitespace", "get_token_type", "is_singleline", "get_newline_str", "get_indentation_str", "get_continuation_str",
+                "get_content", "newlines_before", "indentations_before", "continuations_before", "spaces_before")
+
+
+def measurer_consults_what_decides_the_emission(prog, rep, R):
+    """C15.i — "a cursor inside or at the end of an unchanged token is reported at the same offset inside that token": the offset of a
+    token in the output is computed by offset_for_token, a sibling of the emission step.  Every observation of a token (accessor or
+    layout counter) that decides, on some path of the emission step, what is written in front of the token's text must be consulted
+    by the measuring family too: what the measurer never looks at it cannot account for (the line break the emission step adds after
+    a single-line comment was such a case: every cursor behind it was reported too early)."""
+    REC = "pasfmt_core::defaults::reconstructor::"
+    cl = [b for b in prog.bodies.values() if b.npath.startswith("<" + REC) and b.npath.endswith("LogicalLinesReconstructor>::reconstruct::{closure#0}")]
+    ob = prog.body(REC + "DelphiLogicalLinesReconstructor::offset_for_token")
+    if not rep.check(len(cl) == 1 and ob is not None, R, "anchor:reconstruct/offset_for_token", "reconstruct's per-token closure / offset_for_token not found"):
+        return
+    import c02 as _c02
+    try:
+        tb = _c02.emission_table(prog, cl[0])
+    except Exception as e:
+        rep.fail(R, "emission-table", "emission closure is not a loop-free classifier any more: %s" % e)
+        return
+    emitted = set()
+    for (cons, _res), calls in zip(tb.rows, tb.calls):
+        texts = [str(c[1]) for c in cons]
+        for n2, a in calls:
+            if n2.split("::")[-1] in ("push_str", "push", "for_each", "extend"):
+                texts += [str(x) for x in a]
+        for t in texts:
+            if t.startswith("le(") or "max_level" in t:
+                continue                                       # log-level tests
+            for o in OBSERVATIONS:
+                if re.search(r"(\b%s\(|\.%s\b)" % (o, o), t):
+                    emitted.add(o)
+    fam, st = {}, [ob]
+    while st:
+        b = st.pop()
+        if b.npath in fam:
+            continue
+        fam[b.npath] = b
+        for c in b.calls():
+            hb = prog.body(norm(c.t.get("resolved") or c.callee or ""))
+            if hb is not None and hb.npath.startswith(REC):
+                st.append(hb)
+        st += [x for x in prog.bodies.values() if x.npath.startswith(b.npath + "::{closure")]
+    measured = set()
+    for b in fam.values():
+        for c in b.calls():
+            nm = (c.callee or "").split("::")[-1]
+            if nm in OBSERVATIONS:
+                measured.add(nm)
+    for f in OBSERVATIONS:
+        if f.endswith("_before") and prog.field_accesses("pasfmt_core::lang::FormattingData", f, within=set(fam)):
+            measured.add(f)
+    missing = sorted(emitted - measured)
+    rep.check(not missing, R, "measurer-consults-every-deciding-observation",
+              "what the emission step writes in front of a token depends on %s, which offset_for_token and the functions it calls never look at: the reported offsets cannot account for it" % missing,
+              where="%s:%d" % (ob.file, ob.line), instance={"deciding": sorted(emitted), "consulted": sorted(measured), "measuring_family": sorted(short(k) for k in fam)})
+    rep.floor(R, "observations deciding the emission", len(emitted), 8)
+
+
 def cursors_in_changed_text_are_snapped(prog, rep, R):
     """C15.h — "every reported cursor lies on a character boundary": a cursor inside a token is reported at a byte offset inside the
     token's NEW text, which can differ from the old one in front of the cursor (a blank inserted after `//`, a re-indented
@@ -655,7 +717,7 @@ def cursors_in_changed_text_are_snapped(prog, rep, R):
             return False
         fam = [cb] + [x for x in prog.bodies.values() if x.npath.startswith(cb.npath + "::")]
         return any((c.callee or "") == "core::str::is_char_boundary" or snapper(norm(c.t.get("resolved") or c.callee or ""), depth + 1) for x in fam for c in x.calls() if x is not b)
-    arms = {"Content": 0, "MultilineContent": 0}
+    arms = {"Content": 0, "MultilineContent": 0, "Whitespace": 0}
     for c in b.calls():
         nm = norm(c.t.get("resolved") or c.callee or "")
         if not snapper(nm):
@@ -665,8 +727,22 @@ def cursors_in_changed_text_are_snapped(prog, rep, R):
                 # the snapped value is what is stored
                 arms[f[2][0]] += 1
     for arm, n in arms.items():
+        if arm == "Whitespace":
+            continue
         rep.check(n >= 1, R, "snapped:" + arm, "relocate_cursors reports an offset into a token's (possibly changed) text for TokPos::%s without moving it to a character boundary: `//éa` with --cursor 4 "
                   "(after `é`) is reported at 4, between the two bytes of `é` in `// éa`" % arm, where="%s:%d" % (b.file, b.line), instance={"arm": arm, "boundary_adjustments": n})
+    # a cursor in the blanks before a token is placed by column arithmetic in bytes; the blanks written for a formatted token are
+    # one byte each, the kept blanks of an ignored token need not be (U+3000): under `is_ignored()` the position is snapped too
+    from panic import dominating_conditions
+    wsn = 0
+    for c in b.calls():
+        nm = norm(c.t.get("resolved") or c.callee or "")
+        if snapper(nm) and any(f[1] == "is" and f[2] and f[2][0] == "Whitespace" and "tok_pos" in f[0] for f in dominating_variant_facts(prog, b, c.bb)):
+            if any(x[0] == "call" and x[1].endswith("is_ignored") and x[3] is True for x in dominating_conditions(b, c.bb)) and "get_leading_whitespace(" in canon(b, c.args[0]):
+                wsn += 1
+    rep.check(wsn >= 1, R, "snapped:Whitespace(ignored)", "relocate_cursors places a cursor inside the kept blanks of an ignored token by byte-column arithmetic without moving it to a character boundary: "
+              "`a:=b;{pasfmt off}\u3000\u3000x;` with --cursor 20 (between the two ideographic spaces) is reported at 20, inside the first of them",
+              where="%s:%d" % (b.file, b.line), instance={"arm": "Whitespace", "boundary_adjustments": wsn})
 
 
 def cursor_offsets_reach_the_core_unmodified(prog, rep, R):
@@ -756,13 +832,72 @@ def cursor_measures_what_is_emitted(prog, rep, R):
                     continue
                 sites.append(c)
     rep.floor(R, "uses of the configured newline length in cursor code", len(sites), 1)
+    # predicates of the reconstructor under which the emission step itself writes the configured newline string (the safety-net line
+    # break after a single-line comment is written for ignored tokens too): measuring under the same predicate measures what is emitted
+    emit_preds = set()
+    for b in prog.bodies.values():
+        if "reconstruct::{closure" in b.npath and b.npath.startswith("<" + REC):
+            for c in b.calls():
+                if (c.callee or "").split("::")[-1] in ("push_str",) and "get_newline_str(" in canon(b, c.args[-1]):
+                    for x in dominating_conditions(b, c.bb):
+                        if x[0] == "call" and x[1].startswith(REC) and x[3] is True:
+                            emit_preds.add(x[1])
     for c in sites:
         b = c.body
         conds = dominating_conditions(b, c.bb)
-        ok = any(x[0] == "call" and x[1].endswith("is_ignored") and x[3] is False for x in conds)
+        ok = any(x[0] == "call" and x[1].endswith("is_ignored") and x[3] is False for x in conds) \
+            or any(x[0] == "call" and x[1] in emit_preds and x[3] is True for x in conds)
         rep.check(ok, R, "newline-length-only-for-formatted-tokens:" + short(b.npath),
                   "%s measures line breaks with the configured newline length without knowing that the token is not ignored — the whitespace of an ignored token is emitted as it was in the source" % short(b.npath),
                   where=c.where(), instance={"body": short(b.npath), "guard": "is_ignored() == false"})
+
+
+def offset_family(prog):
+    """offset_for_token and the reconstructor functions it calls (transitively), with their closures"""
+    REC = "pasfmt_core::defaults::reconstructor::"
+    ob = prog.body(REC + "DelphiLogicalLinesReconstructor::offset_for_token")
+    fam, st = {}, [ob] if ob is not None else []
+    while st:
+        b = st.pop()
+        if b.npath in fam:
+            continue
+        fam[b.npath] = b
+        for c in b.calls():
+            hb = prog.body(norm(c.t.get("resolved") or c.callee or ""))
+            if hb is not None and hb.npath.startswith(REC):
+                st.append(hb)
+        st += [x for x in prog.bodies.values() if x.npath.startswith(b.npath + "::{closure")]
+    return fam
+
+
+def counters_measured_only_for_formatted_tokens(prog, rep, R):
+    """C15.e (second half) — the layout counters of FormattingData describe what is written only for tokens that are not ignored:
+    formatters keep writing them for ignored tokens of a line they lay out (reconstruct_solution stores 0 / 1 / clamp(1,2) for every
+    token), while the emission step copies the original whitespace.  In offset_for_token and what it calls, every read of a counter
+    is dominated by `is_ignored() == false`."""
+    from panic import dominating_conditions
+    fam = offset_family(prog)
+    if not rep.check(bool(fam), R, "anchor:offset_for_token", "offset_for_token not found"):
+        return
+    n = 0
+    for f in ("newlines_before", "indentations_before", "continuations_before", "spaces_before"):
+        for a in prog.field_accesses("pasfmt_core::lang::FormattingData", f, within=set(fam)):
+            b = a[0]
+            if a[3] not in ("read", "ref"):
+                continue
+            n += 1
+            def guarded(body, bb, depth=0):
+                if any(x[0] == "call" and x[1].endswith("is_ignored") and x[3] is False for x in dominating_conditions(body, bb)):
+                    return True
+                # a helper that is only ever called for tokens known not to be ignored
+                sites = [x for x in prog.who_calls(body.npath) if x.body.crate.startswith("pasfmt")]
+                return depth < 2 and bool(sites) and all(guarded(x.body, x.bb, depth + 1) for x in sites)
+            ok = guarded(b, a[1])
+            rep.check(ok, R, "counter-read-only-for-formatted-tokens:%s:%s" % (short(b.npath), f),
+                      "%s measures with FormattingData.%s without knowing that the token is not ignored — for an ignored token the counter is whatever a formatter stored last, "
+                      "while its original whitespace is what is emitted: every cursor behind it is reported at another place" % (short(b.npath), f),
+                      where="%s:%d" % (b.file, abs((a[4] or {}).get("line", 0)) if isinstance(a[4], dict) else b.line), instance={"body": short(b.npath), "field": f, "guard": "is_ignored() == false"})
+    rep.floor(R, "counter reads in the offset computation", n, 4)
 
 
 def _dep_closure(body, l, seen=None):
